@@ -106,4 +106,261 @@ theorem counted_spec (x y : List α) :
   simp only [Gen.Diff.isUniqueCode, decide_eq_true_eq, Uniq]
   rw [h2, h1]
   omega
+theorem idx_unique_of_count {l : List α} {s : α} (hc : l.count s = 1) :
+    ∀ {i j : Nat}, l[i]? = some s → l[j]? = some s → i = j := by
+  induction l with
+  | nil => simp at hc
+  | cons a l ih =>
+    intro i j hi hj
+    have hpos : ∀ k, l[k]? = some s → 0 < l.count s := fun k hk => List.count_pos_iff.mpr (List.mem_of_getElem? hk)
+    rw [List.count_cons] at hc
+    cases i with
+    | zero =>
+      cases j with
+      | zero => rfl
+      | succ j =>
+        simp only [List.getElem?_cons_zero, Option.some.injEq] at hi
+        simp only [List.getElem?_cons_succ] at hj
+        have := hpos j hj
+        subst hi
+        simp at hc
+        omega
+    | succ i =>
+      cases j with
+      | zero =>
+        simp only [List.getElem?_cons_zero, Option.some.injEq] at hj
+        simp only [List.getElem?_cons_succ] at hi
+        have := hpos i hi
+        subst hj
+        simp at hc
+        omega
+      | succ j =>
+        simp only [List.getElem?_cons_succ] at hi hj
+        have := hpos i hi
+        have hc' : l.count s = 1 := by
+          split at hc <;> omega
+        rw [ih hc' hi hj]
+
+/-- Invariant of the loop that gathers `yi` (before processing `y[i]`). -/
+structure GY (x y : List α) (m0 : Map α) (i : Nat) (m : Map α) (yi : Array Nat) : Prop where
+  q0 : i ≤ y.length
+  q1 : ∀ s v, mget m s = some v → 0 ≤ v → ∃ (k j : Nat), v = (k : Int) ∧ yi[k]? = some j ∧ y[j]? = some s ∧ Uniq x y s
+  q2 : ∀ (k j : Nat), yi[k]? = some j → j < i
+  q2' : ∀ (k k' j j' : Nat), k < k' → yi[k]? = some j → yi[k']? = some j' → j < j'
+  q3 : ∀ s, mget m s = mget m0 s ∨ ∃ v, 0 ≤ v ∧ mget m s = some v
+  q4 : yi.size = ((y.take i).filter (fun s => decide (Uniq x y s))).length
+  q5 : ∀ (j : Nat) s, j < i → y[j]? = some s → Uniq x y s → ∃ v, 0 ≤ v ∧ mget m s = some v
+
+theorem gatherY_spec (x y : List α) (m0 : Map α)
+    (hm0 : ∀ s, Gen.Diff.isUniqueCode ((mget m0 s).getD 0) = true ↔ Uniq x y s) :
+    ∀ (l : List α) (i : Nat) (m : Map α) (yi : Array Nat), y.drop i = l → GY x y m0 i m yi →
+      GY x y m0 y.length (gatherY l i m yi).1 (gatherY l i m yi).2 := by
+  intro l
+  induction l with
+  | nil =>
+    intro i m yi hl g
+    have hi : y.length ≤ i := by simpa using hl
+    simp only [gatherY]
+    have : i = y.length := Nat.le_antisymm g.q0 hi
+    subst this
+    exact g
+  | cons s l ih =>
+    intro i m yi hl g
+    have hyi : y[i]? = some s := by
+      have := congrArg (fun l => l[0]?) hl
+      simpa using this
+    have hl' : y.drop (i + 1) = l := by
+      rw [← List.drop_drop, hl]; rfl
+    have htake : y.take (i + 1) = y.take i ++ [s] := by
+      rw [List.take_add_one, hyi]; rfl
+    have hcond : Gen.Diff.isUniqueCode ((mget m s).getD 0) = true ↔ Uniq x y s := by
+      rcases g.q3 s with h | ⟨v, hv, h⟩
+      · rw [h]; exact hm0 s
+      · exfalso
+        obtain ⟨k, j, _, hk, hj, hu⟩ := g.q1 s v h hv
+        have := g.q2 k j hk
+        have := idx_unique_of_count hu.2 hj hyi
+        omega
+    unfold gatherY
+    split
+    · rename_i hc
+      have hu := hcond.mp hc
+      apply ih (i + 1) _ _ hl'
+      have hlt : i < y.length := (List.getElem?_eq_some_iff.mp hyi).1
+      refine ⟨hlt, ?_, ?_, ?_, ?_, ?_, ?_⟩
+      · intro t v hget hv
+        rw [mget_mset] at hget
+        split at hget
+        · rename_i hts
+          cases hget
+          exact ⟨yi.size, i, rfl, by simp, hts ▸ hyi, hts ▸ hu⟩
+        · obtain ⟨k, j, h1, h2, h3, h4⟩ := g.q1 t v hget hv
+          exact ⟨k, j, h1, by grind, h3, h4⟩
+      · intro k j h
+        have := g.q2 k j
+        grind
+      · intro k k' j j' hkk h1 h2
+        have := g.q2' k k' j j' hkk
+        have := g.q2 k j
+        grind
+      · intro t
+        rw [mget_mset]
+        split
+        · exact Or.inr ⟨_, by omega, rfl⟩
+        · exact g.q3 t
+      · rw [htake, List.filter_append, List.length_append, ← g.q4]
+        simp [hu]
+      · intro j t hj hyj hut
+        rw [mget_mset]
+        split
+        · exact ⟨_, by omega, rfl⟩
+        · rename_i hts
+          have : j ≠ i := by
+            rintro rfl
+            rw [hyi] at hyj; cases hyj; exact hts rfl
+          exact g.q5 j t (by omega) hyj hut
+    · rename_i hc
+      have hu : ¬ Uniq x y s := fun h => hc (hcond.mpr h)
+      apply ih (i + 1) _ _ hl'
+      have hlt : i < y.length := (List.getElem?_eq_some_iff.mp hyi).1
+      refine ⟨hlt, g.q1, fun k j h => by have := g.q2 k j h; omega, g.q2', g.q3, ?_, ?_⟩
+      · rw [htake, List.filter_append, List.length_append, ← g.q4]
+        simp [hu]
+      · intro j t hj hyj hut
+        have : j ≠ i := by
+          rintro rfl
+          rw [hyi] at hyj; cases hyj; exact hu hut
+        exact g.q5 j t (by omega) hyj hut
+
+/-- Invariant of the loop that gathers `xi` and `inv` (before processing `x[i]`). -/
+structure GX (x y : List α) (m1 : Map α) (i : Nat) (xi inv : Array Nat) : Prop where
+  r0 : i ≤ x.length
+  r1 : xi.size = inv.size
+  r2 : ∀ (t p : Nat), xi[t]? = some p → p < i ∧ ∃ s j, x[p]? = some s ∧ mget m1 s = some j ∧ 0 ≤ j ∧ inv[t]? = some j.toNat
+  r3 : ∀ (t t' p p' : Nat), t < t' → xi[t]? = some p → xi[t']? = some p' → p < p'
+  r4 : xi.size = ((x.take i).filter (fun s => decide (Uniq x y s))).length
+
+theorem gatherX_spec (x y : List α) (m1 : Map α)
+    (hU : ∀ s, s ∈ x → ((∃ j, mget m1 s = some j ∧ 0 ≤ j) ↔ Uniq x y s)) :
+    ∀ (l : List α) (i : Nat) (xi inv : Array Nat), x.drop i = l → GX x y m1 i xi inv →
+      GX x y m1 x.length (gatherX l i m1 xi inv).1 (gatherX l i m1 xi inv).2 := by
+  intro l
+  induction l with
+  | nil =>
+    intro i xi inv hl g
+    have hi : x.length ≤ i := by simpa using hl
+    simp only [gatherX]
+    have : i = x.length := Nat.le_antisymm g.r0 hi
+    subst this
+    exact g
+  | cons s l ih =>
+    intro i xi inv hl g
+    have hxi : x[i]? = some s := by
+      have := congrArg (fun l => l[0]?) hl
+      simpa using this
+    have hl' : x.drop (i + 1) = l := by
+      rw [← List.drop_drop, hl]; rfl
+    have htake : x.take (i + 1) = x.take i ++ [s] := by
+      rw [List.take_add_one, hxi]; rfl
+    have hlt : i < x.length := (List.getElem?_eq_some_iff.mp hxi).1
+    have hmem : s ∈ x := List.mem_of_getElem? hxi
+    have skip : ¬ Uniq x y s → GX x y m1 (i + 1) xi inv := by
+      intro hu
+      refine ⟨hlt, g.r1, fun t p h => ?_, g.r3, ?_⟩
+      · obtain ⟨h1, h2⟩ := g.r2 t p h
+        exact ⟨by omega, h2⟩
+      · rw [htake, List.filter_append, List.length_append, ← g.r4]
+        simp [hu]
+    unfold gatherX
+    split
+    · rename_i j hj
+      split
+      · rename_i hj0
+        have hu : Uniq x y s := (hU s hmem).mp ⟨j, hj, hj0⟩
+        apply ih (i + 1) _ _ hl'
+        refine ⟨hlt, by simp [g.r1], ?_, ?_, ?_⟩
+        · intro t p h
+          by_cases ht : t < xi.size
+          · obtain ⟨h1, s', j', h2, h3, h4, h5⟩ := g.r2 t p (by grind)
+            exact ⟨by omega, s', j', h2, h3, h4, by have := g.r1; grind⟩
+          · have ht' : t = xi.size := by grind
+            subst ht'
+            have hp : p = i := by grind
+            subst hp
+            exact ⟨by omega, s, j, hxi, hj, hj0, by rw [g.r1]; simp⟩
+        · intro t t' p p' htt h1 h2
+          have := g.r3 t t' p p' htt
+          have := g.r2 t p
+          grind
+        · rw [htake, List.filter_append, List.length_append, ← g.r4]
+          simp [hu]
+      · rename_i hj0
+        exact ih (i + 1) _ _ hl' (skip fun hu => by
+          obtain ⟨j', h1, h2⟩ := (hU s hmem).mpr hu
+          rw [hj] at h1; cases h1; exact hj0 h2)
+    · rename_i hnone
+      exact ih (i + 1) _ _ hl' (skip fun hu => by
+        obtain ⟨j', h1, h2⟩ := (hU s hmem).mpr hu
+        rw [hnone] at h1; cases h1)
+
+theorem filter_uniq_length (x y : List α) :
+    (x.filter (fun s => decide (Uniq x y s))).length = (y.filter (fun s => decide (Uniq x y s))).length := by
+  apply List.Perm.length_eq
+  rw [List.perm_ext_iff_of_nodup]
+  · intro a
+    simp only [List.mem_filter, decide_eq_true_eq]
+    constructor
+    · rintro ⟨_, hu⟩
+      exact ⟨List.count_pos_iff.mp (by rw [hu.2]; omega), hu⟩
+    · rintro ⟨_, hu⟩
+      exact ⟨List.count_pos_iff.mp (by rw [hu.1]; omega), hu⟩
+  · rw [List.nodup_iff_count]
+    intro a
+    by_cases h : Uniq x y a
+    · rw [List.count_filter (by simpa using h), h.1]; omega
+    · rw [List.count_eq_zero_of_not_mem (by simp [h])]; omega
+  · rw [List.nodup_iff_count]
+    intro a
+    by_cases h : Uniq x y a
+    · rw [List.count_filter (by simpa using h), h.2]; omega
+    · rw [List.count_eq_zero_of_not_mem (by simp [h])]; omega
+
+/-- What the first half of `tgs` hands to Szymanski's algorithm. -/
+structure Gathered (x y : List α) (xi yi inv : Array Nat) : Prop where
+  sizeX : inv.size = xi.size
+  sizeY : yi.size = xi.size
+  pairs : ∀ (t p : Nat), xi[t]? = some p → ∃ (k j : Nat) (s : α), inv[t]? = some k ∧ yi[k]? = some j ∧
+    x[p]? = some s ∧ y[j]? = some s ∧ Uniq x y s
+  monoX : ∀ (t t' p p' : Nat), t < t' → xi[t]? = some p → xi[t']? = some p' → p < p'
+  monoY : ∀ (k k' j j' : Nat), k < k' → yi[k]? = some j → yi[k']? = some j' → j < j'
+
+theorem gathered (x y : List α) :
+    Gathered x y (gatherX x 0 (gatherY y 0 (countY y (countX x [])) #[]).1 #[] #[]).1
+      (gatherY y 0 (countY y (countX x [])) #[]).2
+      (gatherX x 0 (gatherY y 0 (countY y (countX x [])) #[]).1 #[] #[]).2 := by
+  obtain ⟨hc1, hc2⟩ := counted_spec x y
+  have gy := gatherY_spec x y _ hc1 y 0 _ #[] rfl
+    ⟨Nat.zero_le _, fun s v h hv => by have := hc2 s v h; omega, by simp, by simp, fun s => Or.inl rfl, by simp,
+     fun j s hj => by omega⟩
+  have hU : ∀ s, s ∈ x → ((∃ j, mget (gatherY y 0 (countY y (countX x [])) #[]).1 s = some j ∧ 0 ≤ j) ↔ Uniq x y s) := by
+    intro s _
+    constructor
+    · rintro ⟨j, h1, h2⟩
+      obtain ⟨_, _, _, _, _, hu⟩ := gy.q1 s j h1 h2
+      exact hu
+    · intro hu
+      have : s ∈ y := List.count_pos_iff.mp (by rw [hu.2]; omega)
+      obtain ⟨j, hj, hjs⟩ := List.getElem_of_mem this
+      obtain ⟨v, h1, h2⟩ := gy.q5 j s hj (by rw [List.getElem?_eq_getElem hj, hjs]) hu
+      exact ⟨v, h2, h1⟩
+  have gx := gatherX_spec x y _ hU x 0 #[] #[] rfl
+    ⟨Nat.zero_le _, rfl, by simp, by simp, by simp⟩
+  refine ⟨gx.r1.symm, ?_, ?_, gx.r3, gy.q2'⟩
+  · rw [gy.q4, gx.r4, List.take_of_length_le (Nat.le_refl _), List.take_of_length_le (Nat.le_refl _)]
+    exact (filter_uniq_length x y).symm
+  · intro t p h
+    obtain ⟨_, s, j, h1, h2, h3, h4⟩ := gx.r2 t p h
+    obtain ⟨k, j', e, h5, h6, h7⟩ := gy.q1 s j h2 h3
+    subst e
+    exact ⟨k, j', s, by simpa using h4, h5, h1, h6, h7⟩
 end GIV.Diff
